@@ -2,10 +2,10 @@ package gqlty
 
 import (
 	"context"
+	"encoding/json"
 	"errors"
 	"fmt"
 	"reflect"
-	"strings"
 	"sync/atomic"
 	"time"
 
@@ -37,6 +37,11 @@ type Blob []byte
 type Ints []int64
 type Strs []MyStr
 
+// Doc is a byte slice that renders itself as JSON (like json.RawMessage): a list of uint8 to the builder.
+type Doc []byte
+
+func (d Doc) MarshalJSON() ([]byte, error) { return []byte(fmt.Sprintf(`{"len":%d}`, len(d))), nil }
+
 type MA struct {
 	A1 int64
 	A2 *string
@@ -61,6 +66,7 @@ var scalarKinds = []reflect.Type{
 // list shapes beyond "slice of a scalar kind": named slice types, slices of pointers, nested slices
 var listKinds = []reflect.Type{
 	reflect.TypeOf(Blob{}), reflect.TypeOf(Ints{}), reflect.TypeOf(Strs{}), reflect.TypeOf([]Octet{}),
+	reflect.TypeOf(json.RawMessage{}), reflect.TypeOf(Doc{}), reflect.TypeOf(json.RawMessage{}),
 	reflect.TypeOf([]*string{}), reflect.TypeOf([]*int64{}), reflect.TypeOf([][]int64{}), reflect.TypeOf([]Blob{}),
 	reflect.TypeOf([]Shade{}), reflect.TypeOf([]Stamp{}), reflect.TypeOf([]time.Time{}), reflect.TypeOf([]bool{}),
 }
@@ -90,13 +96,13 @@ func (g *GenSchema) ResetExcuses() {
 	atomic.StoreInt32(&g.EnumNoValue, 0)
 }
 
-// Excused reports whether the execution error is one the generated resolvers caused themselves during this
-// query (they said so through the flags), and which.
-func (g *GenSchema) Excused(msg string) string {
+// Excused reports whether a generated resolver broke its own promise during this query (it said so through
+// the flags): the request is then expected to fail, whatever the wording of the error.
+func (g *GenSchema) Excused() string {
 	switch {
-	case atomic.LoadInt32(&g.NonNullNil) != 0 && strings.Contains(msg, "is marked non-nullable but returned a null value"):
+	case atomic.LoadInt32(&g.NonNullNil) != 0:
 		return "nonnullable-nil-rejected"
-	case atomic.LoadInt32(&g.EnumNoValue) != 0 && strings.Contains(msg, "enum is not valid"):
+	case atomic.LoadInt32(&g.EnumNoValue) != 0:
 		return "enum-without-value-rejected"
 	}
 	return ""
@@ -136,6 +142,9 @@ func (g *GenSchema) value(r *vh.Rng, t reflect.Type) reflect.Value {
 		return reflect.ValueOf(Shade(r.Intn(3)))
 	case reflect.TypeOf(Stamp{}):
 		return reflect.ValueOf(Stamp{S: r.Pick([]string{"a", "b"})})
+	case reflect.TypeOf(json.RawMessage{}):
+		// always valid JSON, of every kind
+		return reflect.ValueOf(json.RawMessage(r.Pick([]string{`{"a":1}`, `[1,2]`, `3`, `"s"`, `true`, `{"b":[null]}`})))
 	case reflect.TypeOf([]byte{}):
 		if r.Chance(15) {
 			return reflect.Zero(t)
